@@ -265,6 +265,9 @@ class Check:
         if not cov["samples"]:
             cov["samples"] = ["(no case executed)"]
         rc = 0
+        import glob
+        for old in glob.glob(os.path.join(EVID, "replay", self.pid + "-*.json")):
+            os.remove(old)
         for n, (desc, payload) in enumerate(self.violations[:20]):
             path = os.path.join(EVID, "replay", "%s-%d.json" % (self.pid, n))
             with open(path, "w") as f:
